@@ -3,6 +3,6 @@
 P=$1; shift
 cd /repo && git apply "$P" || { echo "PATCH DOES NOT APPLY: $P"; exit 3; }
 for p in "$@"; do
-  cd /verif && ./check $p 2>&1 | grep -E "^property=|VIOLATION|UNDECIDED" | cut -c1-260 | head -6
+  cd /verif && VERIF_EVIDENCE_DIR=/tmp/seed_evidence ./check $p 2>&1 | grep -E "^property=|VIOLATION|UNDECIDED" | cut -c1-260 | head -6
 done
 cd /repo && git checkout -- .
